@@ -362,6 +362,15 @@ func NewWorldHold(cfg Cfg, seed int64, lag int64, hold int) (*World, error) {
 	// blocks after the block in which the config was registered (tendermint_batch_config.height <
 	// eons.height, as in production after a failed key generation)
 	w.Chain.OpenBlock()
+	failed := a.EONCounter
+	for i := 1; i <= cfg.T; i++ {
+		// the failure votes are cast with the keypers' keys by the harness, so that the restart of the
+		// eon does not depend on the keypers' outboxes draining (their own votes are answered "seen")
+		tx := w.U.Concretise(sm.Tx{K: "dkgres", S: tokOf(i), N: uint64(700 + i), Eon: failed, Ok: false})
+		if chk, res, _ := w.Chain.Submit(tx); chk.Code != 0 || res.Code != 0 {
+			return nil, fmt.Errorf("prologue: failure vote of k%d refused: %s %s", i, chk.Log, res.Log)
+		}
+	}
 	for i := 1; i <= cfg.N; i++ {
 		if n := w.Nodes[i]; n != nil {
 			if err := w.flush(n, 10); err != nil {
@@ -575,6 +584,10 @@ func (w *World) absMessage(s int, m *shmsg.Message) Msg {
 		if i := w.idxOf(common.BytesToAddress(a)); i > 0 {
 			out.Vals[i-1] = v
 		}
+	}
+	if e, ok := eonOf(m); ok && e != w.Eon {
+		out.K = "old" // left over from the failed first eon
+		return out
 	}
 	switch {
 	case m.GetPolyCommitment() != nil:
